@@ -21,6 +21,8 @@ import lin
 import pan
 import panlin
 import summ
+import summ2
+import vint
 import sym
 import tbl
 import witness
@@ -187,7 +189,8 @@ def run(run_, ctx):
     helpers = ctx.helpers("A")
     fns = decode_fns(pc)
     # P
-    pan.run_sites(run_, "P", F, fns, discharge_factory(F, helpers), inline=c03.inline_policy)
+    roots = [f for f in fns if glue.specified(f) and not vint.is_helper(f)]
+    pan.run_sites(run_, "P", F, roots, discharge_factory(F, helpers), inline=summ2.inline_glue, models=sym.SLICE_MODELS)
     run_.floor("P", 12)
     run_.extra["functions_scanned_for_panic_sites"] = len(fns)
     for f in pc.fns:
